@@ -324,6 +324,10 @@ class ExecS(Exec):
 
     def do_yield(self, y, st):
         cur = st.env.get("__yielded__", ListV())
+        if isinstance(cur, ObjV):
+            # opaque (inside / after a loop cut by an invariant)
+            self.ev(y.value, st) if y.value is not None else None
+            return self.split_pending(st, y) + [Outcome("normal", st)]
         if isinstance(y, ast.Yield):
             v = self.ev(y.value, st) if y.value is not None else None
             outs = self.split_pending(st, y)
@@ -811,6 +815,11 @@ class ExecS(Exec):
                 h.pc += shape_invariants(h.env[v])
         if stored:
             self.havoc_arrays(h, stored)
+        if any(isinstance(x, (ast.Yield, ast.YieldFrom)) for b_s in s.body for x in ast.walk(b_s)):
+            # a generator that yields inside a loop cut by an invariant: what it has yielded becomes opaque (the
+            # obligations inside the body are still checked for an arbitrary iteration; no clause can speak about the
+            # yielded sequence)
+            h.env["__yielded__"] = ObjV("__yields__", {})
         for lab, inv in invs:
             h.pc.append(boolify(self.ev(inv, h, spec=True)))
         results = []
